@@ -13,6 +13,7 @@ import (
 	"golang.org/x/time/rate"
 
 	"github.com/fatedier/frp/pkg/config/types"
+	v1 "github.com/fatedier/frp/pkg/config/v1"
 	"github.com/fatedier/frp/pkg/msg"
 	"github.com/fatedier/frp/pkg/util/limit"
 	"github.com/fatedier/frp/pkg/util/vhost"
@@ -663,4 +664,38 @@ func verifUDPWorkConnLoopStep(pxy *UDPProxy) bool {
 func verif_UDPProxy_workConnLoop() {
 	verif.ResetEvents()
 	verif.CallTarget()
+}
+
+// NewTCPProxy / NewUDPProxy (C09 "no client session ever holds more ports than
+// maxPortsPerClient"): every tcp and every udp proxy - fixed or server-chosen
+// port, member of a load-balancing group or not (the first member of a group
+// opens a public port like any other proxy) - weighs exactly one port in the
+// session's quota; a configuration of another type yields no proxy.
+//
+//verif:contract ~/server/proxy.NewTCPProxy
+//verif:props C09
+func verif_NewTCPProxy(base *BaseProxy) {
+	cfg, isTCP := base.configurer.(*v1.TCPProxyConfig)
+	p := NewTCPProxy(base)
+	if isTCP {
+		tp, ok := p.(*TCPProxy)
+		verif.Ensures(ok && tp != nil && tp.BaseProxy == base && tp.cfg == cfg, "proxy_wraps_the_base_and_its_configuration")
+		verif.Ensures(base.usedPortsNum == 1, "counts_one_port_grouped_or_not")
+	} else {
+		verif.Ensures(p == nil, "other_configuration_yields_no_proxy")
+	}
+}
+
+//verif:contract ~/server/proxy.NewUDPProxy
+//verif:props C09
+func verif_NewUDPProxy(base *BaseProxy) {
+	cfg, isUDP := base.configurer.(*v1.UDPProxyConfig)
+	p := NewUDPProxy(base)
+	if isUDP {
+		up, ok := p.(*UDPProxy)
+		verif.Ensures(ok && up != nil && up.BaseProxy == base && up.cfg == cfg, "proxy_wraps_the_base_and_its_configuration")
+		verif.Ensures(base.usedPortsNum == 1, "counts_one_port")
+	} else {
+		verif.Ensures(p == nil, "other_configuration_yields_no_proxy")
+	}
 }
